@@ -131,16 +131,17 @@ static at_op_t* at_op[3]; static s_op_t* s_op[3];
 #include <unifex/io_concepts.hpp>
 #include <unifex/span.hpp>
 #include <system_error>
-static unsigned char rbuf[2], wbuf[2]; static int io_done[2], io_value[2], io_cancel_sent[2]; static long io_n[2]; static int io_first_seq[2];
-static simple_stop_source* io_ss[2];
+static unsigned char rbuf[2], wbuf[2], rbuf2[2]; static int io_done[3], io_value[3], io_cancel_sent[3]; static long io_n[3]; static int io_first_seq[3], io_rd_from[3], io_rd_n[3];
+static simple_stop_source* io_ss[3];
 static void free_io(int k) noexcept;
 struct irec {
-  int k;   // 0 = read, 1 = write
+  int k;   // 0 = read, 1 = write, 2 = a second read on the same descriptor (started after the first one completed)
   void fin(bool value) noexcept {
     ++io_done[k]; io_value[k] = value; VF_ASSERT(io_done[k] == 1, "I/O operation completed more than once");
     VF_ASSERT(inside_run && unifex::linuxos::currentThreadContext == ctx, "I/O completion delivered on a thread that is not inside run()");
     VF_ASSERT(io_ss[k]->live_regs == 0, "stop callback still registered when the I/O receiver was completed");
-    VF_ASSERT(!k_registered[k == 0 ? k_pr : k_pw], "the context still has the descriptor registered with epoll (pointing at this operation) when the operation completed");
+    if (k != 1) { io_rd_from[k] = k_rd_from; io_rd_n[k] = k_rd_n; }
+    VF_ASSERT(!k_registered[k == 1 ? k_pw : k_pr], "the context still has the descriptor registered with epoll (pointing at this operation) when the operation completed");
     free_io(k);
   }
   void set_value(ssize_t n) && noexcept { io_n[k] = n; fin(true); }
@@ -153,8 +154,10 @@ using rw_pair_t = decltype(open_pipe(std::declval<sched_t>()));
 static rw_pair_t* rw;
 using r_op_t = connect_result_t<decltype(async_read_some(std::declval<decltype(rw->first)&>(), span<std::byte>{})), irec>;
 using w_op_t = connect_result_t<decltype(async_write_some(std::declval<decltype(rw->second)&>(), span<const std::byte>{})), irec>;
-static r_op_t* r_op; static w_op_t* w_op;
-static void free_io(int k) noexcept { if (k == 0) { delete r_op; r_op = nullptr; } else { delete w_op; w_op = nullptr; } }
+static r_op_t* r_op; static w_op_t* w_op; static r_op_t* r_op2;
+static void free_io(int k) noexcept { if (k == 0) { delete r_op; r_op = nullptr; } else if (k == 1) { delete w_op; w_op = nullptr; } else { delete r_op2; r_op2 = nullptr; } }
+static void start_read2() { VF_ASSERT(io_done[0] == 1, "harness: second read started before the first completed"); io_ss[2] = new simple_stop_source(); ++expected;
+  r_op2 = new r_op_t(connect(async_read_some(rw->first, span<std::byte>{(std::byte*)rbuf2, 2}), irec{2})); start(*r_op2); }
 static void start_read() { io_ss[0] = new simple_stop_source(); ++expected; io_first_seq[0] = -1;
   r_op = new r_op_t(connect(async_read_some(rw->first, span<std::byte>{(std::byte*)rbuf, 2}), irec{0})); start(*r_op); }
 static void start_write() { io_ss[1] = new simple_stop_source(); ++expected; wbuf[0] = nondet_u8(); wbuf[1] = nondet_u8();
@@ -183,14 +186,16 @@ static void remote(int kind) {
     case 10: io_cancel_sent[1] = 1; io_ss[1]->request_stop(); break;
     case 11: if (k_plen > 0) { (void)k_pop(); k_upd(); } break;          // another process reads one byte from the pipe
     case 12: if (k_plen < k_pcap) { k_push(0x5a); k_upd(); } break;      // another process writes one byte into the pipe
+    case 13: start_read2(); break;                                         // descriptor reuse after the first read completed / was cancelled
+    case 14: start_read2(); if (k_plen < k_pcap) k_push(0x33); if (k_plen < k_pcap) k_push(0x44); k_upd(); break;   // ... and another process then writes two bytes
   }
   k_in_remote = 0; unifex::linuxos::currentThreadContext = saved;
 }
 static void inject(int blocking) {
   int now_ = k_syscalls++;
-  for (int i = 0; i < 3; ++i) if (act_kind[i] && !act_done[i] && (act_at[i] <= now_ || (blocking && !k_wake))) { act_done[i] = 1; remote(act_kind[i]); }
+  for (int i = 0; i < 3; ++i) if (act_kind[i] && !act_done[i] && (act_at[i] <= now_ || (blocking && !k_wake)) && ((act_kind[i] != 13 && act_kind[i] != 14) || io_done[0])) { act_done[i] = 1; remote(act_kind[i]); }
   int all = 1; for (int i = 0; i < 3; ++i) if (act_kind[i] && !act_done[i]) all = 0;
-  int completed = io_done[0] + io_done[1]; for (int i = 0; i < 3; ++i) completed += done_[i];
+  int completed = io_done[0] + io_done[1] + io_done[2]; for (int i = 0; i < 3; ++i) completed += done_[i];
   // "prompt cancellation": once a stop request for a timer has been delivered and processed, the loop must not need the timer's expiry
   if (blocking && !k_wake && all && completed == expected && !stop_sent) { stop_sent = 1; k_in_remote = 1; auto* sv = unifex::linuxos::currentThreadContext; unifex::linuxos::currentThreadContext = nullptr; run_ss->request_stop(); unifex::linuxos::currentThreadContext = sv; k_in_remote = 0; }
   if (blocking && !(k_efd_count > 0)) for (int i = 0; i < 2; ++i) if (cancel_sent[i] && !done_[i] && k_tfd_armed && !(vf_clock_peek() >= due[i]))
@@ -204,7 +209,7 @@ extern "C" void h_epoll() {
   int pre_cons = k_ncons, pre_log = k_nlog;
   inside_run = 1; ctx->run(simple_stop_token{run_ss}); inside_run = 0;
   for (int i = 0; i < 3; ++i) if (act_kind[i]) VF_ASSERT(act_done[i], "harness: an environment action never happened");
-  VF_ASSERT(r_op == nullptr && w_op == nullptr, "an I/O operation never completed although run() returned after it was started");
+  VF_ASSERT(r_op == nullptr && w_op == nullptr && r_op2 == nullptr, "an I/O operation never completed although run() returned after it was started");
   if (io_done[1] && io_value[1]) {      // bytes actually transferred by the write: exactly io_n bytes, equal to the front of the buffer, appended in order
     VF_ASSERT(io_n[1] >= 1 && io_n[1] <= 2, "write completed with an impossible byte count");
     VF_ASSERT(io_n[1] == k_wr_n, "write reported a byte count different from what the pipe accepted");
@@ -212,11 +217,16 @@ extern "C" void h_epoll() {
   }
   if (io_done[0] && io_value[0]) {
     VF_ASSERT(io_n[0] >= 1 && io_n[0] <= 2, "read completed with an impossible byte count");
-    VF_ASSERT(io_n[0] == k_rd_n, "read reported a byte count different from what left the pipe");
-    for (int i = 0; i < 2; ++i) if (i < io_n[0]) VF_ASSERT(rbuf[i] == k_log[k_rd_from + i], "bytes delivered by the read differ from the bytes in the pipe (or are out of order)");
+    VF_ASSERT(io_n[0] == io_rd_n[0], "read reported a byte count different from what left the pipe");
+    for (int i = 0; i < 2; ++i) if (i < io_n[0]) VF_ASSERT(rbuf[i] == k_log[io_rd_from[0] + i], "bytes delivered by the read differ from the bytes in the pipe (or are out of order)");
+  }
+  if (io_done[2] && io_value[2]) {      // the later operation on the same descriptor gets the later bytes, in order; a cancelled first read consumed nothing
+    VF_ASSERT(io_n[2] >= 1 && io_n[2] <= 2 && io_n[2] == io_rd_n[2], "second read completed with a wrong byte count");
+    for (int i = 0; i < 2; ++i) if (i < io_n[2]) VF_ASSERT(rbuf2[i] == k_log[io_rd_from[2] + i], "bytes delivered by the second read differ from the bytes in the pipe");
+    if (io_done[0] && !io_value[0]) VF_ASSERT(io_rd_from[2] == pre_cons, "a cancelled read consumed bytes that belong to the next operation on the descriptor");
   }
   if (io_done[0] && !io_value[0]) VF_ASSERT(true, "");
-  int completed = io_done[0] + io_done[1]; for (int i = 0; i < 3; ++i) { completed += done_[i]; VF_ASSERT(at_op[i] == nullptr && s_op[i] == nullptr, "an operation never completed although run() returned after it was started"); }
+  int completed = io_done[0] + io_done[1] + io_done[2]; for (int i = 0; i < 3; ++i) { completed += done_[i]; VF_ASSERT(at_op[i] == nullptr && s_op[i] == nullptr, "an operation never completed although run() returned after it was started"); }
   VF_ASSERT(completed == expected, "work scheduled on the context was lost");
   // due-time order (ties in submission order) among timers that completed with a value
   // (only when both timers were submitted together: a timer submitted after an earlier one was already reaped can only complete later)
@@ -228,7 +238,7 @@ extern "C" void h_epoll() {
     if (due[1] < due[0]) VF_ASSERT(first == 1, "timers completed out of due-time order");
   }
   if (rw) { delete rw; VF_ASSERT(k_closed[k_pr] == 1 && k_closed[k_pw] == 1, "pipe descriptors not closed exactly once"); VF_ASSERT(!k_registered[k_pr] && !k_registered[k_pw], "an I/O descriptor is still registered with epoll after all operations on it completed"); }
-  for (int k = 0; k < 2; ++k) delete io_ss[k];
+  for (int k = 0; k < 3; ++k) delete io_ss[k];
   delete ctx;
   VF_ASSERT(k_closed[k_ep] == 1 && k_closed[k_efd] == 1 && k_closed[k_tfd] == 1, "a descriptor of the context was not closed exactly once");
   VF_ASSERT(!k_registered[k_efd] && !k_registered[k_tfd], "epoll registration not removed");
